@@ -154,6 +154,23 @@ pub fn subinput_grammar() -> String {
     .join("\n")
 }
 
+pub const OPTION_SETS: [(&str, &[&str]); 8] = [
+    ("default", &[]),
+    ("box", &["box_only_if_needed"]),
+    ("refs", &["emit_rule_reference"]),
+    ("tags", &["emit_tagged_node_reference"]),
+    ("nospan", &["do_not_emit_span"]),
+    ("nowarn", &["no_warnings"]),
+    ("noopt", &["pest_optimizer = false"]),
+    ("all", &["box_only_if_needed", "emit_rule_reference", "emit_tagged_node_reference", "do_not_emit_span", "no_warnings", "pest_optimizer = false"]),
+];
+
+fn is_recursive(g: &Grammar) -> bool {
+    let mut m = std::collections::BTreeMap::new();
+    crate::grammargen::feature_counts(g, &mut m);
+    m.contains_key("grammar.recursive")
+}
+
 pub fn build(seed: u64, tier: Tier) -> Corpus {
     let mut specs = vec![];
     let mut stats = GenStats::default();
@@ -180,6 +197,29 @@ pub fn build(seed: u64, tier: Tier) -> Corpus {
     let (lo, hi) = tier.pick((-3, 3), (-6, 6));
     specs.push(Spec::new("slice", "slice", &slice_grammar(lo, hi)));
     specs.push(Spec::new("stackbuiltin", "slice", &stack_builtin_grammar()));
+    // options family (C20): recursive grammars x option sets, each variant its own module
+    let n_opt = tier.pick(5, 10);
+    let mut rng = Rng::new(sub_seed(seed, "corpus.options"));
+    let mut k = 0;
+    while k < n_opt {
+        let g = valid_grammar(&mut rng, &Profile::recursive(), &mut stats, &mut rejected);
+        if !is_recursive(&g) {
+            continue;
+        }
+        for (vn, opts) in OPTION_SETS {
+            let mut s = Spec::new(&format!("opt{:02}_{}", k, vn), "options", &g.text);
+            s.options = opts.iter().map(|o| o.to_string()).collect();
+            specs.push(s);
+        }
+        k += 1;
+    }
+    // hand-written cycles through options, repetitions, choices and skip rules
+    let cyc = "a = { \"a\" ~ b* }\nb = { \"b\" ~ c? }\nc = { a+ | \"(\" ~ d ~ \")\" }\nd = _{ (c | e)* }\ne = ${ \"e\" ~ a? }\nWHITESPACE = _{ \" \" }\nCOMMENT = { \"#\" ~ (!\"#\" ~ ANY)* ~ \"#\" }";
+    for (vn, opts) in OPTION_SETS {
+        let mut s = Spec::new(&format!("optcy_{}", vn), "options", cyc);
+        s.options = opts.iter().map(|o| o.to_string()).collect();
+        specs.push(s);
+    }
     {
         let mut s = Spec::new("subinput", "subinput", &subinput_grammar());
         s.forms = true;
@@ -199,10 +239,17 @@ pub fn build(seed: u64, tier: Tier) -> Corpus {
         for (k, rep) in f.raw["reproducers"].as_array().cloned().unwrap_or_default().iter().enumerate() {
             if let Some(text) = rep["grammar"].as_str() {
                 if Grammar::parse(text).is_ok() {
-                    let mut s = Spec::new(&format!("kf_{}_{}", f.id, k), "regression", text);
-                    s.forms = true;
-                    s.options = rep["options"].as_array().map(|a| a.iter().filter_map(|x| x.as_str().map(String::from)).collect()).unwrap_or_default();
+                    let options: Vec<String> = rep["options"].as_array().map(|a| a.iter().filter_map(|x| x.as_str().map(String::from)).collect()).unwrap_or_default();
+                    // a reproducer about an option set is compiled as an options family: the
+                    // variant and the default build of the same text
+                    let family = if options.is_empty() { "regression" } else { "options" };
+                    let mut s = Spec::new(&format!("kf_{}_{}", f.id, k), family, text);
+                    s.forms = options.is_empty();
+                    s.options = options.clone();
                     specs.push(s);
+                    if !options.is_empty() {
+                        specs.push(Spec::new(&format!("kf_{}_{}_default", f.id, k), "options", text));
+                    }
                 }
             }
         }
